@@ -107,7 +107,8 @@ Definition pend_fact (d : db) (rid pid : string) (k : kont) (pe : pend) : Prop :
   | KCallback_reread _ =>
     match pd_ready pe with
     | None => Freg d rid pid
-    | Some c => forall p, one_promise c = Some (Some p) -> p_state p = Pending -> registered d rid = true
+    | Some c => one_promise c <> Some None /\
+                forall p, one_promise c = Some (Some p) -> p_state p = Pending -> registered d rid = true
     end
   | _ => True
   end.
@@ -116,7 +117,7 @@ Definition kont_fact (d : db) (rid pid : string) (k : kont) : Prop :=
   match k with
   | KCallback pid' cbid _ _ _ => pid' = pid /\ cbid = rid
   | KCallback_ins _ cc => cc_id cc = rid /\ cc_pid cc = pid /\ has_row d pid
-  | KCallback_reread pid' => pid' = pid
+  | KCallback_reread pid' => pid' = pid /\ has_row d pid
   | _ => False
   end.
 
@@ -135,21 +136,23 @@ Lemma pend_fact_mono : forall a b rid pid k pe, Mid a b -> pend_fact a rid pid k
 Proof.
   intros a b rid pid k pe M H. destruct k; cbn in *; try exact I; destruct (pd_ready pe); try exact I.
   - intros n Hn Hne. eapply Freg_mono; [exact M|]. eapply H; eassumption.
-  - intros p Hp Hs. eapply registered_mono; [exact M|]. eapply H; eassumption.
+  - destruct H as [H0 H]. split; [exact H0|]. intros p Hp Hs. eapply registered_mono; [exact M|]. eapply H; eassumption.
   - eapply Freg_mono; eassumption.
 Qed.
 
 Lemma kont_fact_mono : forall a b rid pid k, Mid a b -> kont_fact a rid pid k -> kont_fact b rid pid k.
 Proof.
-  intros a b rid pid k M H. destruct k; cbn in *; try exact H. destruct H as [A [B C]]. split; [exact A|]. split; [exact B|].
-  eapply has_row_mono; eassumption.
+  intros a b rid pid k M H. destruct k; cbn in *; try exact H.
+  - destruct H as [A [B C]]. split; [exact A|]. split; [exact B|]. eapply has_row_mono; eassumption.
+  - destruct H as [A C]. split; [exact A|]. eapply has_row_mono; eassumption.
 Qed.
 
 (* what the completion handed to a registration coroutine is known to say *)
 Definition cpl_fact (d : db) (rid pid : string) (k : kont) (c : cpl) : Prop :=
   match k with
   | KCallback_ins _ _ => forall n, one_alter c = Some n -> n <> 1 -> Freg d rid pid
-  | KCallback_reread _ => forall p, one_promise c = Some (Some p) -> p_state p = Pending -> registered d rid = true
+  | KCallback_reread _ => one_promise c <> Some None /\
+                          forall p, one_promise c = Some (Some p) -> p_state p = Pending -> registered d rid = true
   | _ => True
   end.
 
@@ -186,9 +189,10 @@ Proof.
     destruct (one_alter c) as [n|] eqn:E1; cbn; try (split; [intros rsp Hrsp; inversion Hrsp; reflexivity|exact I]).
     destruct (n =? 1) eqn:En; cbn.
     + split; [|exact I]. intros rsp Hrsp. inversion Hrsp; subst. reflexivity.
-    + split; [intros rsp Hrsp; discriminate|]. split; [reflexivity|]. split; [exact Hpid|]. cbn. apply (Hc n eq_refl). lia.
+    + split; [intros rsp Hrsp; discriminate|]. split; [reflexivity|]. split; [split; [exact Hpid|exact Hrow]|]. cbn. apply (Hc n eq_refl). lia.
   - (* the second read answered *)
-    cbn in Hc. destruct (one_promise c) as [[p|]|] eqn:E1; cbn; try (split; [intros rsp Hrsp; inversion Hrsp; reflexivity|exact I]).
+    cbn in Hc. destruct Hc as [Hnn Hc]. destruct (one_promise c) as [[p|]|] eqn:E1; cbn;
+      [|exfalso; apply Hnn; reflexivity|split; [intros rsp Hrsp; inversion Hrsp; reflexivity|exact I]].
     split; [|exact I]. intros rsp Hrsp. inversion Hrsp; subst. cbn. destruct (p_state p =? Pending) eqn:Ep; cbn; [|reflexivity].
     rewrite Hrid. apply (Hc p eq_refl). lia.
 Qed.
@@ -207,6 +211,14 @@ Proof.
     + split; [intros rsp Hr; inversion Hr; reflexivity|exact I].
     + split; [intros rsp Hr; discriminate|]. split; [split; reflexivity|intros pe; exact I].
   - split; [intros rsp Hr; discriminate|]. split; [split; reflexivity|intros pe; exact I].
+Qed.
+
+Lemma c507_nonreg : forall d q rsp, reg_of q = None -> c507_resp d q rsp = true.
+Proof.
+  intros d q rsp H. assert (Hn : reg_id q = None).
+  { destruct (reg_id q) as [rid|] eqn:Ei; [|reflexivity]. destruct (reg_id_of _ _ Ei) as [pid Hc]. congruence. }
+  unfold c507_resp. rewrite Hn. destruct rsp; try reflexivity. destruct p; [|reflexivity]. destruct cb; [reflexivity|].
+  destruct ((status =? 20000) && (p_state p =? Pending)); reflexivity.
 Qed.
 
 (* ---------- the tick ---------- *)
@@ -305,10 +317,7 @@ Proof.
       rewrite Hlive by exact Hi. destruct (lookup_req (i_id i) m) as [q|] eqn:Eq; [|reflexivity].
       destruct (reg_of q) as [[rid pid]|] eqn:Er.
       * rewrite (proj1 (Hstep i q rid pid Hi Eq Er) rsp (visible_some _ _ Ev)). reflexivity.
-      * assert (c507_resp (s_db s) q rsp = true) as ->; [|reflexivity].
-        unfold c507_resp. destruct rsp; try reflexivity. destruct p; [|reflexivity]. destruct cb; [reflexivity|].
-        destruct ((status =? 20000) && (p_state p =? Pending)); [|reflexivity].
-        destruct (reg_id q) as [rid|] eqn:Ei; [|reflexivity]. destruct (reg_id_of _ _ Ei) as [pid Hc]. congruence.
+      * rewrite (c507_nonreg (s_db s) q rsp Er). reflexivity.
     + pose proof (start_insts_obs starts (s_group s) x) as R. rewrite E2 in R. destruct (R Hx) as [id [o [Hin Hobs]]].
       destruct (inst_obs_cases _ _ _ Hobs) as [-> _]. destruct (visible_resp (o_resp o)) as [rsp|] eqn:Ev; [|reflexivity].
       unfold starts in Hin. apply in_app_or in Hin. destruct Hin as [Hin|Hin]; apply in_map_iff in Hin; destruct Hin as [y [Hy Hin]]; injection Hy as Hid Ho.
@@ -318,10 +327,7 @@ Proof.
         rewrite <- Hid. rewrite (lookup_ext_arr bgs arr m (fst y) (snd y) Hnb Na) by (destruct y; exact Hin).
         destruct (reg_of (snd y)) as [[rid pid]|] eqn:Er.
         -- rewrite <- Ho in Ev. rewrite (proj1 (start_reg (snd y) t (s_db s) rid pid Er) rsp (visible_some _ _ Ev)). reflexivity.
-        -- assert (c507_resp (s_db s) (snd y) rsp = true) as ->; [|reflexivity].
-           unfold c507_resp. destruct rsp; try reflexivity. destruct p; [|reflexivity]. destruct cb; [reflexivity|].
-           destruct ((status =? 20000) && (p_state p =? Pending)); [|reflexivity].
-           destruct (reg_id (snd y)) as [rid|] eqn:Ei; [|reflexivity]. destruct (reg_id_of _ _ Ei) as [pid Hc]. congruence.
+        -- rewrite (c507_nonreg (s_db s) (snd y) rsp Er). reflexivity.
 Qed.
 
 (* ---------- the other steps ---------- *)
@@ -385,20 +391,27 @@ Proof.
       cbn in Hn. injection Hn as ->. rewrite Hcid, Hcpid in Hf.
       eapply Freg_mono; [exact M3|]. eapply Freg_mono; [exact M2|]. apply Hf. exact Hne.
     + (* the second read *)
-      intros p1 Hp1 Hpend. destruct Hc as [->|[rs [-> [dx [dx' [M1 [Ex [M2 M3]]]]]]]]; [discriminate|].
-      cbn in Hke. rewrite Hsub in Hke. injection Hke as ->. cbn in Hk. subst pid0.
+      destruct Hc as [->|[rs [-> [dx [dx' [M1 [Ex [M2 M3]]]]]]]]; [split; [discriminate|intros; discriminate]|].
+      cbn in Hke. rewrite Hsub in Hke. injection Hke as ->. cbn in Hk. destruct Hk as [Hpid Hrow0]. subst pid0.
       cbn [fst snd] in Ex. destruct (exec_txn_single _ _ _ _ _ Ex) as [r ->].
-      destruct (read_promise_row _ _ _ _ _ Ex) as [-> [rows [lst [recs [-> Hrow]]]]]. cbn in Hp1. injection Hp1 as Hp1.
-      destruct (Hrow p1 Hp1) as [q0 [Hq0 [Hq0id Hq0s]]].
-      eapply registered_mono; [exact M3|]. cbn in Hpf. rewrite Hrdy in Hpf.
-      eapply reread_pending; [exact (proj1 (proj1 (proj2 M1)))|eapply Freg_mono; [exact M1|exact Hpf]|exact Hq0|exact Hq0id|congruence].
+      pose proof Ex as Ex0. cbn in Ex0. injection Ex0 as _ Hr0.
+      destruct (read_promise_row _ _ _ _ _ Ex) as [-> [rows [lst [recs [-> Hrow]]]]]. split.
+      * (* the promise exists where the read runs: it is found *)
+        cbn. destruct (has_row_mono _ _ _ M1 Hrow0) as [q1 [Hq1 Hq1id]]. unfold ex_read_promise in Hr0.
+        destruct (find_promise pid dx) as [q2|] eqn:F.
+        -- injection Hr0 as _ _ <-. cbn. discriminate.
+        -- exfalso. unfold find_promise in F. apply (find_promise_none_in _ _ q1 F Hq1). exact Hq1id.
+      * intros p1 Hp1 Hpend. cbn in Hp1. injection Hp1 as Hp1.
+        destruct (Hrow p1 Hp1) as [q0 [Hq0 [Hq0id Hq0s]]].
+        eapply registered_mono; [exact M3|]. cbn in Hpf. rewrite Hrdy in Hpf.
+        eapply reread_pending; [exact (proj1 (proj1 (proj2 M1)))|eapply Freg_mono; [exact M1|exact Hpf]|exact Hq0|exact Hq0id|congruence].
   - (* the batch failed as a whole: every submission of it is answered with an error *)
     apply (YInv_from_PF m s (s_db s) _ (Mid_refl _ HC) HY).
     apply (set_batch_ready_gen (PF m s (s_db s)) (fun _ _ => False) batch txns None (s_pend s) Eb En);
       [apply PF_initial; [exact HS|apply Mid_refl; exact HC|exact HY]|exact I|].
     intros p cs hs c Hin Hsub Hrdy HPp Hc i q rid pid k Hi Hq Hreg Hid Hst. cbn [pd_id pd_n pd_sub pd_ready] in *.
     destruct (HPp i q rid pid k Hi Hq Hreg Hid Hst) as [Hke _]. split; [exact Hke|].
-    destruct Hc as [->|[rs [_ []]]]. destruct k; cbn; try exact I; intros; discriminate.
+    destruct Hc as [->|[rs [_ []]]]. destruct k; cbn; try exact I; try (split; [discriminate|]); intros; discriminate.
 Qed.
 
 (* a completion that is not a store result says nothing *)
@@ -412,7 +425,7 @@ Proof.
   apply find_some in F. destruct F as [Fin _].
   pose proof (PF_initial m s (s_db s) HS (Mid_refl _ HC) HY) as HF.
   destruct (proj1 (Forall_forall _ _) HF p Fin i q rid pid k Hi Hq Hreg Hid Hst) as [Hke _]. split; [exact Hke|].
-  destruct k; cbn; try exact I; intros; congruence.
+  destruct k; cbn; try exact I; try (split; [congruence|]); intros; congruence.
 Qed.
 
 Definition Inv507 (m : rmap) (s : sys) : Prop := Inv05 s /\ YInv m s.
